@@ -630,3 +630,84 @@ def compound_def_program():
             body = [R.If(cond, [m(), R.If(R.Bin('<', R.Var('x'), env.num('val')), inner), m()]), m(), call]
         return stmts + body + [m()]
     return gen
+
+
+# ---------------------------------------------------------------- C15 -------
+def matrix_specs(h, w, zones=8):
+    return (('A', 'G1', 'L1', 'plain'), ('Z', 'G2', 'L2', 'multizone', zones), ('M', 'G3', 'L2', 'matrix', 0, h, w))
+
+
+def addressing_program(h, w, zones=8):
+    """Zone ranges and matrix rectangles (inline and block form), bounds given as
+    symbolic literals, variables, expressions or loop indices."""
+    def gen(ch):
+        env = Env(ch)
+        doms = {}
+
+        def bound(lo, hi):
+            n = env.num('cell')
+            doms[n.sid] = ('int', lo, hi)
+            return n
+        mode = ch.pick(['logical', 'raw', 'rgb'], [3, 2, 1])
+        stmts = []
+        if mode != 'logical':
+            stmts.append(R.Units(mode))
+        regs = ('red', 'green', 'blue') if mode == 'rgb' else ('hue', 'saturation', 'brightness')
+        kinds = {'logical': ('hue', 'pct', 'pct'), 'raw': ('raw', 'raw', 'raw'), 'rgb': ('pct', 'pct', 'pct')}[mode]
+
+        def colour():
+            return [R.SetReg(r, env.num(k)) for r, k in zip(regs, kinds)] + [R.SetReg('kelvin', env.num('kelvin'))]
+
+        def rng(n, as_var):
+            """inclusive range within 0..n-1: (first, last|None)"""
+            style = ch.choose(4)
+            if style == 0:
+                return (bound(0, n - 1), None)
+            mid = (n - 1) // 2
+            a, b = bound(0, mid), bound(mid, n - 1)
+            if style == 2 and as_var:
+                stmts.append(R.Assign('ra', a))
+                return (R.Var('ra'), b)
+            if style == 3:
+                return (a, R.Bin('+', a_copy(a), N(value=ch.choose(n - mid))))
+            return (a, b)
+
+        def a_copy(a):
+            # the same symbolic literal used twice (rendered twice, same sentinel)
+            return a
+        stmts += colour()
+        stmts.append(R.SetReg('duration', env.num('dur')))
+        if ch.flag(0.5):
+            stmts.append(R.Action('set', 'default'))
+            stmts += [R.SetReg(regs[0], env.num(kinds[0]))]
+        what = ch.pick(['zone', 'inline', 'block', 'block-loop'], [2, 3, 3, 1])
+        if what == 'zone':
+            z = rng(zones, True)
+            ops = [R.Operand('light', R.Str('Z'), zone=z)]
+            if ch.flag(0.3):
+                ops.append(R.Operand('light', R.Str('A')))
+            stmts.append(R.Action('set', ops))
+        elif what == 'inline':
+            rows = rng(h, True) if ch.flag(0.7) else None
+            cols = rng(w, False) if (rows is None or ch.flag(0.6)) else None
+            order = ch.pick(['rc', 'cr'])
+            stmts.append(R.Action('set', [R.Operand('light', R.Str('M'), matrix=('inline', rows, cols, order))]))
+        elif what == 'block':
+            body = []
+            for _ in range(ch.choose(4)):
+                rows = rng(h, False) if ch.flag(0.7) else None
+                cols = rng(w, False) if (rows is None or ch.flag(0.5)) else None
+                body.append(R.Stage(rows, cols, ch.pick(['rc', 'cr'])))
+                body.append(R.SetReg(regs[0], env.num(kinds[0])))
+            stmts.append(R.Action('set', [R.Operand('light', R.Str('M'), matrix=('block', body))]))
+        else:
+            step = env.num('pct')
+            body = [R.Repeat('with', [R.Stage((R.Var('i'), None), None), R.SetReg(regs[1], R.Bin('+', R.Reg(regs[1]), N(value=1)))],
+                             var='i', a=N(value=0), b=N(value=h - 1))]
+            if ch.flag():
+                body.append(R.Stage(None, (bound(0, w - 1), None)))
+            stmts.append(R.Action('set', [R.Operand('light', R.Str('M'), matrix=('block', body))]))
+        if ch.flag(0.3):
+            stmts.append(R.Action('set', [R.Operand('light', R.Str('A'))]))
+        return (doms, stmts)
+    return gen
